@@ -2,9 +2,10 @@ SPECIFICATION Spec
 CONSTANTS
   MaxB = 3
   MaxN = 3
-  ValTab <- ValsPrime
-  Refs = {0, 1, 2, 3, 4}
+  AllSubsets = FALSE
+  Refs = {0, 1}
   Canon = TRUE
-  Kinds = {"R","Y","LV","V","VL","I","IL","S","O"}
+  ValTab <- ValsPrime
+  Kinds = {"R","V","VL","I","IL"}
 INVARIANT Check
 CHECK_DEADLOCK FALSE
